@@ -146,10 +146,17 @@ static void rng_run(const plan *p)
         nthreads = 1 + (int)((uint64_t)pa(&p->l[i], 0) % MAXT); sched = (uint64_t)pa(&p->l[i], 1); pct = (int)((uint64_t)pa(&p->l[i], 2) % 101); break;
     }
     memset(nout, 0, sizeof nout); memset(nref, 0, sizeof nref);
+    libstate_snapshot();
     baton_begin(sched, pct);
     for (int t = 0; t < nthreads; t++) baton_spawn(thread_script, (void *)(intptr_t)t);
     baton_run_all();
     baton_end();
+    {   /* "do not depend on which thread makes the calls, or on what other threads do": nothing the samplers keep may be shared */
+        size_t off = 0;
+        const char *m = libstate_changed(&off);
+        if (m) viol("C15", "shared-library-state-written", "static non-thread-local storage of %s (offset %zu) changed while the threads drew numbers: the generator keeps state that threads share", m, off);
+        if (libstate_ranges() > 0) PROBE("rng.library_static_state_compared");
+    }
     g_stats.faults = baton_switches();
     bool dirty = false;
     for (int i = 0; i < p->n; i++) if (pis(&p->l[i], "D")) dirty = true;
